@@ -99,6 +99,7 @@ def explore(ctx, rep, scs, label):
             nfail += 1
             rep.fail(f["what"], sc, observed=f["observed"], expected=f["expected"], sig=f["sig"])
         rep.count("returned" if o["returned"] else "cut")
+        R.count_inputs(rep, sc)
         rep.count("N=%s" % ("set" if sc["N"] else None))
         rep.count("stop=%s" % ("set" if sc["stop_us"] is not None else None))
         for m in sc["msgs"]:
